@@ -170,6 +170,7 @@ type c19swarm struct {
 	pay    [][]byte
 	lstop  []func()
 	errs   []string
+	broken bool // the harness itself failed (ports, stores): the case is not evaluated
 }
 
 func c19peerID(r *hlib.Rng) core.PeerID {
@@ -249,13 +250,27 @@ func (sw *c19swarm) join(p *c19peer, ask bool) {
 	}
 	tp := networkevent.NewTestProducer()
 	p.prods = append(p.prods, tp)
-	s, err := newScheduler(sw.schedConfig(), ta, tally.NewTestScope("", nil), p.pctx, sw.announceClient(p.pctx), tp)
-	if err != nil {
-		panic(err)
-	}
-	p.joins = append(p.joins, time.Now())
-	if err := s.start(announcequeue.New()); err != nil {
-		panic(err)
+	var s *scheduler
+	nj := len(p.joins)
+	for try := 0; ; try++ {
+		var err error
+		s, err = newScheduler(sw.schedConfig(), ta, tally.NewTestScope("", nil), p.pctx, sw.announceClient(p.pctx), tp)
+		if err != nil {
+			panic(err)
+		}
+		if len(p.joins) == nj {
+			p.joins = append(p.joins, time.Now())
+		} else {
+			p.joins[len(p.joins)-1] = time.Now()
+		}
+		if err = s.start(announcequeue.New()); err == nil {
+			break
+		}
+		// the port was taken meanwhile (other processes on the box): move
+		if try >= 20 {
+			panic(err)
+		}
+		p.pctx.Port = findFreePort()
 	}
 	p.sched = s
 	p.up = true
@@ -300,15 +315,23 @@ func (sw *c19swarm) startOrigin(p *c19peer) {
 	}
 	tp := networkevent.NewTestProducer()
 	p.prods = append(p.prods, tp)
-	s, err := newScheduler(sw.schedConfig(), originstorage.NewTorrentArchive(cas, nil), tally.NewTestScope("", nil),
-		p.pctx, announceclient.Disabled(), tp)
-	if err != nil {
-		panic(err)
+	var s *scheduler
+	for try := 0; ; try++ {
+		var err error
+		s, err = newScheduler(sw.schedConfig(), originstorage.NewTorrentArchive(cas, nil), tally.NewTestScope("", nil),
+			p.pctx, announceclient.Disabled(), tp)
+		if err != nil {
+			panic(err)
+		}
+		if err = s.start(announcequeue.Disabled()); err == nil {
+			break
+		}
+		if try >= 20 {
+			panic(err)
+		}
+		p.pctx.Port = findFreePort()
 	}
 	p.joins = append(p.joins, time.Now())
-	if err := s.start(announcequeue.Disabled()); err != nil {
-		panic(err)
-	}
 	p.sched = s
 	p.up = true
 	sw.orig.mu.Lock()
@@ -386,9 +409,16 @@ func (sw *c19swarm) startCorrupter(p *c19peer, r *hlib.Rng) {
 	if err != nil {
 		panic(err)
 	}
-	l, err := net.Listen("tcp", fmt.Sprintf(":%d", p.pctx.Port))
-	if err != nil {
-		panic(err)
+	var l net.Listener
+	for try := 0; ; try++ {
+		l, err = net.Listen("tcp", fmt.Sprintf(":%d", p.pctx.Port))
+		if err == nil {
+			break
+		}
+		if try >= 20 {
+			panic(err)
+		}
+		p.pctx.Port = findFreePort()
 	}
 	done := make(chan struct{})
 	var rmu sync.Mutex
@@ -528,7 +558,8 @@ func c19runSwarm(sp c19spec, dir string, r *hlib.Rng) (sw *c19swarm) {
 	}
 	defer func() {
 		if e := recover(); e != nil {
-			sw.errs = append(sw.errs, fmt.Sprint(e))
+			sw.errs = append(sw.errs, fmt.Sprint("harness: ", e))
+			sw.broken = true
 		}
 	}()
 
@@ -539,8 +570,17 @@ func c19runSwarm(sp c19spec, dir string, r *hlib.Rng) (sw *c19swarm) {
 		sw.startCorrupter(corr, r.Fork())
 	}
 	wg.Add(1)
+	guard := func() {
+		if e := recover(); e != nil {
+			sw.mu.Lock()
+			sw.errs = append(sw.errs, fmt.Sprint("harness: ", e))
+			sw.broken = true
+			sw.mu.Unlock()
+		}
+	}
 	go func() {
 		defer wg.Done()
+		defer guard()
 		time.Sleep(sp.seedDelay)
 		smu.Lock()
 		defer smu.Unlock()
@@ -555,10 +595,11 @@ func c19runSwarm(sp c19spec, dir string, r *hlib.Rng) (sw *c19swarm) {
 		wg.Add(1)
 		go func() {
 			defer wg.Done()
+			defer guard()
 			time.Sleep(sp.delay[k])
 			smu.Lock()
+			defer smu.Unlock()
 			sw.join(p, true)
-			smu.Unlock()
 		}()
 	}
 	wg.Wait()
@@ -669,6 +710,10 @@ func c19ns(xs []int) string {
 
 func (sw *c19swarm) emit(ctx *hlib.Ctx) {
 	sp := sw.sp
+	if sw.broken {
+		ctx.Emit(hlib.Case{Incon: true, Kind: "harness-step-failed", Coq: "", Sample: map[string]interface{}{"errors": sw.errs}})
+		return
+	}
 	n := sw.n
 	np := len(sw.peers)
 	hist := []string{}
